@@ -33,6 +33,7 @@ from pathlib import Path
 
 from src.core.base import BaseLintContext, BaseLintRule
 from src.core.constants import HEADER_SCAN_LINES, IgnoreDirective, Language
+from src.core.linter_utils import load_linter_config
 from src.core.types import Severity, Violation
 from src.linter_config.ignore import get_ignore_parser
 from src.linter_config.rule_matcher import rule_matches
@@ -151,7 +152,8 @@ class StatelessClassRule(BaseLintRule):  # thailint: ignore[srp,dry]
             StatelessClassConfig instance
         """
         if not hasattr(context, "config") or context.config is None:
-            return StatelessClassConfig()
+            # The orchestrator passes the loaded configuration as context metadata
+            return load_linter_config(context, "stateless-class", StatelessClassConfig)
 
         config_dict = context.config
         if not isinstance(config_dict, dict):
